@@ -11,7 +11,11 @@ from prettyprinter.doctypes import (AlwaysBreak, Annotated, Concat, Contextual, 
 from prettyprinter.sdoctypes import SLine, SAnnotationPush, SAnnotationPop
 from prettyprinter.syntax import Token
 
-TOKENS = list(Token)
+# fixed numbering by *name* (the model's Pr.t* constants); independent of the enum's definition order
+TOKEN_NAMES = ['KEYWORD_CONSTANT', 'NAME_BUILTIN', 'NAME_ENTITY', 'NAME_FUNCTION', 'NAME_VARIABLE', 'LITERAL_STRING',
+               'STRING_AFFIX', 'STRING_ESCAPE', 'NUMBER_BINARY', 'NUMBER_FLOAT', 'NUMBER_INT', 'OPERATOR', 'PUNCTUATION',
+               'COMMENT_SINGLE']
+TOKENS = [getattr(Token, n, None) for n in TOKEN_NAMES]
 
 
 class Oth:
@@ -49,11 +53,12 @@ def ann_to_py(a):
 
 def ann_val_to_sx(v):
     if isinstance(v, Token):
-        return '(tok %d)' % TOKENS.index(v)
+        return '(tok %d)' % (TOKEN_NAMES.index(v.name) if v.name in TOKEN_NAMES else 900)
     if isinstance(v, Oth):
         return '(oth %d)' % v.n
     if type(v).__name__ == 'CommentAnnotation':
-        return sx_str('cmt', v.value)
+        import sec_strings
+        return '(cmt %s)' % sec_strings.pchars(v.value) if v.value else '(cmt)'
     return '(oth 999)'
 
 
@@ -62,7 +67,8 @@ def ann_to_sx(a):
         return '(tok %d)' % a[1]
     if a[0] == 'oth':
         return '(oth %d)' % a[1]
-    return sx_str('cmt', a[1])
+    import sec_strings
+    return '(cmt %s)' % sec_strings.pchars(a[1]) if a[1] else '(cmt)'
 
 
 # ---- terms -------------------------------------------------------------------------------
